@@ -322,9 +322,11 @@ RSAGEN_KINDS = ("zero", "ones", "minp", "minp+1", "seeded")
 def check_rsagen(bits, kind, acc):
     from Crypto.PublicKey import RSA
     from ..ref import nt
-    half = bits // 2
+    size_q = bits // 2
+    half = bits - size_q                 # size of the prime drawn first (p); the library swaps so that p < q afterwards
     nb = (half + 7) // 8
     minp = nt.isqrt(1 << (2 * half - 1))
+    minq = nt.isqrt(1 << (2 * size_q - 1))
     head = {"zero": bytes(nb), "ones": b"\xff" * nb, "minp": minp.to_bytes(nb, "big"), "minp+1": (minp + 1).to_bytes(nb, "big"),
             "seeded": seeded("c18/rsagen/%d" % bits, nb)}[kind]
     label = _label("rsagen", bits, kind)
@@ -344,8 +346,9 @@ def check_rsagen(bits, kind, acc):
     n, e, d, p, q, u = t1
     if n.bit_length() != bits or p * q != n:
         return ck.viol("out-of-range", "modulus has %d bits" % n.bit_length())
-    if not (minp < p < (1 << half) and minp < q < (1 << half)):
-        return ck.viol("out-of-range", "a prime factor lies outside (sqrt(2)*2^(bits/2-1), 2^(bits/2))")
+    small, large = sorted((p, q))
+    if not (minq < small < (1 << size_q) and minp < large < (1 << half)):
+        return ck.viol("out-of-range", "a prime factor lies outside (sqrt(2)*2^(size-1), 2^size) for its size (%d/%d bits)" % (size_q, half))
     if not ck.calls(calls):
         return
     cands = [c[3] | 1 for c in calls if c[0] == "random" and "exact_bits" in c[1]]
